@@ -58,7 +58,7 @@ def run_one(choices, params):
     plan = []
     for i in range(nreq):
         plan.append({"gap": w.pick((0.0, 0.0, 0.125, 0.125, 0.25, 0.0625)), "delay": w.pick((0.0, 0.0, 0.0, 0.125, 0.0625, 0.375)),
-                     "mode": w.pick(("v", "v", "x", "o"))})
+                     "mode": w.pick(("v", "v", "x", "o", "m"))})
     info = {"obs": [], "bgrecv": 0, "known": 0, "states": set()}
 
     def main(sim, k):
@@ -99,8 +99,8 @@ def run_one(choices, params):
                     outcome = "value"
                     if p["mode"] == "v" and r != ("r", (i, "v")):
                         raise core.Violation("crossed-reply", "request %d returned %r" % (i, r))
-                    if p["mode"] == "o":
-                        if r[0] != (i, "o"):
+                    if p["mode"] in ("o", "m"):
+                        if r[0] != (i, p["mode"]):
                             raise core.Violation("crossed-reply", "request %d returned %r" % (i, r[0]))
                         keep.append(r)
                     if p["mode"] == "x":
@@ -154,6 +154,7 @@ def run_one(choices, params):
             except Exception:
                 pass
         spy.check_missed()
+        spy.check_builtin_inspect(rp)
         if deferred:
             raise deferred[0]
         return True
